@@ -217,7 +217,48 @@ func bb(b bool) []byte {
 
 // exec runs one call; the result is a digest of everything it returned, or of
 // the panic it raised (explicit refusals are results too).
-func (f *Fix) exec(c Call, priv *xmss.XMSS) (res string) {
+// held remembers reference-typed values a call returned (strings, slices), so
+// that the harness can check after the run that nothing rewrote them later: a
+// result that changes after it was returned is not "the result it returns when
+// run alone".
+type held struct{ items []heldItem }
+type heldItem struct {
+	call string
+	s    string
+	b    []byte
+	sum  [32]byte
+}
+
+func (h *held) str(call, s string) []byte {
+	if h != nil {
+		h.items = append(h.items, heldItem{call: call, s: s, sum: sha256.Sum256([]byte(s))})
+	}
+	return []byte(s)
+}
+func (h *held) bytes(call string, b []byte) []byte {
+	if h != nil && len(b) > 0 {
+		h.items = append(h.items, heldItem{call: call, b: b, sum: sha256.Sum256(b)})
+	}
+	return b
+}
+
+// changed names the first held value whose content is no longer what was returned.
+func (h *held) changed() string {
+	for _, it := range h.items {
+		var now [32]byte
+		if it.b != nil {
+			now = sha256.Sum256(it.b)
+		} else {
+			now = sha256.Sum256([]byte(it.s))
+		}
+		if now != it.sum {
+			return it.call
+		}
+	}
+	return ""
+}
+
+func (f *Fix) exec(c Call, priv *xmss.XMSS, h *held) (res string) {
 	defer func() {
 		if r := recover(); r != nil {
 			kind := "panic"
@@ -265,7 +306,7 @@ func (f *Fix) exec(c Call, priv *xmss.XMSS) (res string) {
 		s := &f.DSig[a%len(f.DSig)]
 		return digestOf(bb(dilithium.Verify(f.Msgs[s.msg], s.sig, &f.DilPK[s.key])))
 	case "dopen":
-		return digestOf(dilithium.Open(f.DSeal[a%len(f.DSeal)], &f.DilPK[b%len(f.DilPK)]))
+		return digestOf(h.bytes(c.K, dilithium.Open(f.DSeal[a%len(f.DSeal)], &f.DilPK[b%len(f.DilPK)])))
 	case "daddr":
 		ad := dilithium.GetDilithiumAddressFromPK(f.DilPK[a%len(f.DilPK)])
 		return digestOf(ad[:])
@@ -276,11 +317,11 @@ func (f *Fix) exec(c Call, priv *xmss.XMSS) (res string) {
 		return digestOf(s[:], []byte(fmt.Sprint(err)))
 	case "dseal":
 		s, err := f.dil(a).Seal(f.Msgs[b%len(f.Msgs)])
-		return digestOf(s, []byte(fmt.Sprint(err)))
+		return digestOf(h.bytes(c.K, s), []byte(fmt.Sprint(err)))
 	case "dget":
 		d := f.dil(a)
 		pk, sk, sd, ad := d.GetPK(), d.GetSK(), d.GetSeed(), d.GetAddress()
-		return digestOf(pk[:], sk[:], sd[:], ad[:], []byte(d.GetMnemonic()), []byte(d.GetHexSeed()))
+		return digestOf(pk[:], sk[:], sd[:], ad[:], h.str(c.K, d.GetMnemonic()), h.str(c.K, d.GetHexSeed()))
 	case "dextract":
 		sm := f.DSeal[(a%(len(f.DSeal)-1))]
 		return digestOf(dilithium.ExtractMessage(sm), dilithium.ExtractSignature(sm))
@@ -291,9 +332,9 @@ func (f *Fix) exec(c Call, priv *xmss.XMSS) (res string) {
 		s := misc.MnemonicToExtendedSeedBin(f.Mnem[a%len(f.Mnem)])
 		return digestOf(s[:])
 	case "seed2m":
-		return digestOf([]byte(misc.SeedBinToMnemonic(f.Seeds[a%len(f.Seeds)])))
+		return digestOf(h.str(c.K, misc.SeedBinToMnemonic(f.Seeds[a%len(f.Seeds)])))
 	case "ext2m":
-		return digestOf([]byte(misc.ExtendedSeedBinToMnemonic(f.Ext[a%len(f.Ext)])))
+		return digestOf(h.str(c.K, misc.ExtendedSeedBinToMnemonic(f.Ext[a%len(f.Ext)])))
 	case "dnewseed":
 		d, err := dilithium.NewDilithiumFromSeed(f.Seeds[a%len(f.Seeds)])
 		return dilDigest(d, err)
@@ -309,13 +350,13 @@ func (f *Fix) exec(c Call, priv *xmss.XMSS) (res string) {
 		return dilDigest(d, err)
 	case "psign":
 		s, err := priv.Sign(f.Msgs[a%len(f.Msgs)])
-		return digestOf(s, []byte(fmt.Sprint(err)))
+		return digestOf(h.bytes(c.K, s), []byte(fmt.Sprint(err)))
 	case "pset":
 		priv.SetIndex(uint32(a))
 		return digestOf([]byte{byte(priv.GetIndex())})
 	case "pget":
 		pk, ad, sd, ex := priv.GetPK(), priv.GetAddress(), priv.GetSeed(), priv.GetExtendedSeed()
-		return digestOf(pk[:], ad[:], sd[:], ex[:], []byte(priv.GetMnemonic()), []byte{byte(priv.GetIndex()), priv.GetHeight()})
+		return digestOf(pk[:], ad[:], sd[:], ex[:], h.str(c.K, priv.GetMnemonic()), h.str(c.K, priv.GetHexSeed()), []byte{byte(priv.GetIndex()), priv.GetHeight()})
 	case "xnew":
 		k := xmss.NewXMSSFromSeed(f.Seeds[a%len(f.Seeds)], 4, xmss.HashFunction(b%3), common.SHA256_2X)
 		pk := k.GetPK()
@@ -324,7 +365,7 @@ func (f *Fix) exec(c Call, priv *xmss.XMSS) (res string) {
 		k := xmss.NewXMSSFromExtendedSeed(f.Ext[a%len(f.Ext)])
 		pk := k.GetPK()
 		s, err := k.Sign(f.Msgs[b%len(f.Msgs)])
-		return digestOf(pk[:], s, []byte(fmt.Sprint(err)))
+		return digestOf(pk[:], h.bytes(c.K, s), h.str(c.K, k.GetMnemonic()), []byte(fmt.Sprint(err)))
 	}
 	panic("consim: unknown call kind " + c.K)
 }
